@@ -114,6 +114,10 @@ Proof. apply B2Prim_inj. rewrite B2Prim_Prim2B. reflexivity. Qed.
 Lemma Prim2B_neg_infinity : Prim2B neg_infinity = B754_infinity true.
 Proof. apply B2Prim_inj. rewrite B2Prim_Prim2B. reflexivity. Qed.
 
+Lemma nmax_F_zero (x : F) :
+  nmax (NN:=NumF) 0%float x = if fltb x 0%float then 0%float else if fltb 0%float x then x else 0%float.
+Proof. reflexivity. Qed.
+
 Theorem F_sub_div_zero : forall x y : F,
   fltb x y = true -> fdiv (fsub x y) 0%float = neg_infinity.
 Proof.
@@ -179,52 +183,93 @@ Proof.
   injection H as -> -> ->. eexists. reflexivity.
 Qed.
 
-(* 1 - r is a finite, non-negatively signed number for every r in [0, 1] *)
-Theorem F_one_minus_ratio : forall r : F,
-  fleb 0%float r = true -> fleb r 1%float = true ->
-  ffinite (fsub 1%float r) = true /\ Bsign (Prim2B (fsub 1%float r)) = false.
+(* the cooling factor max(0, 1 - r) is a finite, non-negatively signed number for every
+   cooling ratio r with |r| <= 2^1000 *)
+Definition big : F := 0x1p1000%float.
+
+Lemma Prim2B_finite_facts (x : F) (s : bool) (m : positive) (e : Z) :
+  Prim2SF x = S754_finite s m e ->
+  exists h, Prim2B x = B754_finite s m e h.
 Proof.
-  intros r H0 H1. unfold ffinite. rewrite sub_equiv.
-  rewrite leb_equiv, Prim2B_zero in H0. rewrite leb_equiv in H1.
-  set (R := Prim2B r) in *. set (One := Prim2B 1%float) in *.
-  destruct Prim2B_one as [h1 E1].
-  assert (F1 : BinarySingleNaN.is_finite One = true) by (unfold One; rewrite E1; reflexivity).
-  assert (B1 : B2R One = 1%R).
-  { unfold One. rewrite E1. simpl. unfold F2R. simpl. lra. }
-  assert (S1 : Bsign One = false) by (unfold One; rewrite E1; reflexivity).
-  assert (FR : BinarySingleNaN.is_finite R = true).
-  { destruct R as [s|s| |s m e h]; try reflexivity; try discriminate.
-    destruct s; discriminate. }
-  rewrite Bleb_correct in H0, H1 by (try assumption; reflexivity).
-  simpl in H0. rewrite B1 in H1.
-  destruct (Rle_bool_spec 0 (B2R R)) as [Hr0|]; [|discriminate].
-  destruct (Rle_bool_spec (B2R R) 1) as [Hr1|]; [|discriminate].
-  pose proof (Bminus_correct _ _ _ _ mode_NE One R F1 FR) as Hm.
-  rewrite B1 in Hm.
-  assert (Hrnd : (0 <= round radix2 (SpecFloat.fexp prec emax) (round_mode mode_NE) (1 - B2R R) <= 1)%R).
-  { split.
-    - rewrite <- (round_0 radix2 (SpecFloat.fexp prec emax) (round_mode mode_NE)).
-      apply round_le; try typeclasses eauto. lra.
-    - apply Rle_trans with (round radix2 (SpecFloat.fexp prec emax) (round_mode mode_NE) 1).
-      + apply round_le; try typeclasses eauto. lra.
-      + rewrite round_generic; [lra|typeclasses eauto|].
-        rewrite <- B1. apply generic_format_B2R. }
-  rewrite Rlt_bool_true in Hm.
-  - destruct Hm as (_ & HF & HS). split; [exact HF|].
-    refine (eq_trans HS _). rewrite S1.
-    destruct (Rcompare_spec (1 - B2R R) 0); try reflexivity. lra.
-  - rewrite Rabs_pos_eq by lra.
-    apply Rle_lt_trans with 1%R; [lra|].
-    change 1%R with (bpow radix2 0). apply bpow_lt. reflexivity.
+  intros H0. pose proof (B2SF_Prim2B x) as H. rewrite H0 in H.
+  destruct (Prim2B x) as [s'|s'| |s' m' e' h]; simpl in H; try discriminate.
+  injection H as -> -> ->. eexists. reflexivity.
 Qed.
 
-Theorem F_zero_mul_one_minus_ratio : forall r : F,
-  fleb 0%float r = true -> fleb r 1%float = true ->
-  fmul 0%float (fsub 1%float r) = 0%float.
+Lemma pos_is_finite_positive (X : BF) :
+  Bltb (B754_zero false) X = true -> X <> B754_infinity false ->
+  BinarySingleNaN.is_finite X = true /\ Bsign X = false.
 Proof.
-  intros r H0 H1. destruct (F_one_minus_ratio r H0 H1). now apply F_zero_mul.
+  intros H Hinf.
+  destruct X as [s|s| |s m e h]; try destruct s;
+    cbv [Bltb SFltb SFcompare B2SF] in H; try discriminate.
+  - exfalso. now apply Hinf.
+  - split; reflexivity.
 Qed.
-Print Assumptions F_zero_mul_one_minus_ratio.
+
+Theorem F_factor_from_ratio : forall r : F,
+  fleb (Coq.Floats.PrimFloat.opp big) r = true -> fleb r big = true ->
+  let f := nmax (NN:=NumF) 0%float (fsub 1%float r) in
+  ffinite f = true /\ Bsign (Prim2B f) = false.
+Proof.
+  intros r H0 H1 f.
+  set (x := fsub 1%float r) in *.
+  assert (Hx : ffinite x = true).
+  { unfold ffinite, x. rewrite sub_equiv.
+    rewrite leb_equiv in H0, H1.
+    destruct (Prim2B_finite_facts big false 4503599627370496 948 eq_refl) as [hb Eb].
+    destruct (Prim2B_finite_facts (Coq.Floats.PrimFloat.opp big) true 4503599627370496 948 eq_refl) as [hn En].
+    rewrite Eb in H1. rewrite En in H0.
+    set (R := Prim2B r) in *. set (One := Prim2B 1%float) in *.
+    destruct Prim2B_one as [h1 E1].
+    assert (F1 : BinarySingleNaN.is_finite One = true) by (unfold One; rewrite E1; reflexivity).
+    assert (B1 : B2R One = 1%R).
+    { unfold One. rewrite E1. simpl. unfold F2R. simpl. lra. }
+    assert (FR : BinarySingleNaN.is_finite R = true).
+    { destruct R as [s|s| |s m e h]; try reflexivity; try discriminate.
+      destruct s; discriminate. }
+    rewrite Bleb_correct in H0, H1 by (try assumption; reflexivity).
+    destruct (Rle_bool_spec (B2R (B754_finite true 4503599627370496 948 hn)) (B2R R)) as [Hr0|]; [|discriminate].
+    destruct (Rle_bool_spec (B2R R) (B2R (B754_finite false 4503599627370496 948 hb))) as [Hr1|]; [|discriminate].
+    assert (Eb' : B2R (B754_finite false 4503599627370496 948 hb) = bpow radix2 1000).
+    { change (B2R (B754_finite false 4503599627370496 948 hb))
+        with (F2R (Float radix2 (radix2 ^ 52) 948)).
+      unfold F2R. cbn [Fnum Fexp]. rewrite IZR_Zpower by lia. rewrite <- bpow_plus. reflexivity. }
+    assert (En' : B2R (B754_finite true 4503599627370496 948 hn) = (- bpow radix2 1000)%R).
+    { change (B2R (B754_finite true 4503599627370496 948 hn))
+        with (F2R (Float radix2 (- (radix2 ^ 52)) 948)).
+      unfold F2R. cbn [Fnum Fexp]. rewrite opp_IZR, IZR_Zpower by lia.
+      rewrite <- Ropp_mult_distr_l, <- bpow_plus. reflexivity. }
+    rewrite Eb' in Hr1. rewrite En' in Hr0.
+    pose proof (Bminus_correct _ _ _ _ mode_NE One R F1 FR) as Hm.
+    rewrite B1 in Hm.
+    assert (Hb : (Rabs (round radix2 (SpecFloat.fexp prec emax) (round_mode mode_NE) (1 - B2R R))
+                  <= bpow radix2 1001)%R).
+    { apply abs_round_le_generic; try typeclasses eauto.
+      - apply generic_format_bpow'; try typeclasses eauto. vm_compute. discriminate.
+      - assert (bpow radix2 1001 = 2 * bpow radix2 1000)%R.
+        { change 1001%Z with (1 + 1000)%Z. rewrite bpow_plus. reflexivity. }
+        assert (1 <= bpow radix2 1000)%R.
+        { change 1%R with (bpow radix2 0). apply bpow_le. lia. }
+        apply Rabs_le. lra. }
+    rewrite Rlt_bool_true in Hm.
+    - apply Hm.
+    - eapply Rle_lt_trans; [exact Hb|]. apply bpow_lt. reflexivity. }
+  unfold f. rewrite nmax_F_zero.
+  destruct (fltb x 0%float) eqn:E1; [split; reflexivity|].
+  destruct (fltb 0%float x) eqn:E2; [|split; reflexivity].
+  unfold ffinite in *. rewrite ltb_equiv, Prim2B_zero in E2.
+  apply pos_is_finite_positive; [exact E2|].
+  intros E. rewrite E in Hx. discriminate.
+Qed.
+
+Theorem F_zero_mul_factor : forall r : F,
+  fleb (Coq.Floats.PrimFloat.opp big) r = true -> fleb r big = true ->
+  fmul 0%float (nmax (NN:=NumF) 0%float (fsub 1%float r)) = 0%float.
+Proof.
+  intros r H0 H1. destruct (F_factor_from_ratio r H0 H1). now apply F_zero_mul.
+Qed.
+Print Assumptions F_zero_mul_factor.
 
 Theorem F_zero_mul_tenth : fmul 0%float (tenth NumF) = 0%float.
 Proof. reflexivity. Qed.
